@@ -134,7 +134,7 @@ def c08(report):
 
 def c09(report):
     report.nontrivial_rule = "predict edges compared with the first maximiser of predict_expectations from the same stream position"
-    jobs = cf_jobs(CF_LPS, report.tier, report.seed, over=dict(QueryRows={0, 1, 3}))
+    jobs = cf_jobs(CF_LPS, report.tier, report.seed, ops=FULL_OPS | {"warm_start"}, over=dict(QueryRows={0, 1, 3}))
     jobs += cf_jobs(["eg"], report.tier, report.seed, bfs=False, tag="-eps", eps=0.5, over=dict(QueryRows={0, 1, 3}))
     ecf.run_jobs(report, jobs, by_clause("argmax", "result.arm"))
     nb_side(report, ("argmax", "nonhood"), lps=("eg", "ucb1", "ts", "softmax"))
@@ -206,7 +206,7 @@ def c19(report):
 # ---------------------------------------------------------------------------
 # neighbourhood policies (Nbhd.tla + TraceNbhd.tla)
 NB_VARIANTS = {
-    "radius": [dict(metric="cityblock", radius=(2, 1), dims=2),
+    "radius": [dict(metric="cityblock", radius=(2, 1), dims=2, n_jobs=2, backend="threading"),
                dict(metric="euclidean", radius=(1, 1), dims=2, labelmap="str", unit="1/4"),
                dict(metric="chebyshev", radius=(1, 1), dims=3, no_nhood=[1.0, 0.0]),
                dict(metric="sqeuclidean", radius=(2, 1), dims=2, grid=4, labelmap="float"),
@@ -216,19 +216,25 @@ NB_VARIANTS = {
                  dict(metric="sqeuclidean", k=3, dims=3, labelmap="float")],
     "lsh": [dict(n_tables=2, n_dims=2, dims=2), dict(n_tables=1, n_dims=1, dims=1, labelmap="str"),
             dict(n_tables=3, n_dims=3, dims=3, unit="1/4", n_jobs=2, backend="threading"),
-            dict(n_tables=2, n_dims=2, dims=2, n_jobs=3, backend="threading", no_nhood=[0.0, 1.0], seed=5)],
-    "clusters": [dict(n_clusters=2, dims=2), dict(n_clusters=3, dims=2, grid=4, labelmap="str"),
-                 dict(n_clusters=2, minibatch=True, dims=1, grid=5, unit="1/4")],
-    "tree": [dict(dims=2), dict(tree_params={"max_depth": 1}, dims=2, labelmap="str"),
-             dict(tree_params={"min_samples_leaf": 2}, dims=1, grid=5, unit="1/4")],
+            dict(n_tables=2, n_dims=2, dims=2, n_jobs=3, backend="threading", no_nhood=[0.0, 1.0], seed=5),
+            dict(n_tables=1, n_dims=10, dims=3, grid=4, seed=3), dict(n_tables=2, n_dims=5, dims=2, grid=5)],
+    "clusters": [dict(n_clusters=2, dims=2, n_jobs=2, backend="threading"), dict(n_clusters=3, dims=2, grid=4, labelmap="str"),
+                 dict(n_clusters=2, minibatch=True, dims=1, grid=5, unit="1/4"),
+                 dict(n_clusters=5, minibatch=True, dims=2, grid=2, n_jobs=3, backend="threading")],
+    "tree": [dict(dims=2, n_jobs=2, backend="threading"), dict(tree_params={"max_depth": 1}, dims=2, labelmap="str"),
+             dict(tree_params={"min_samples_leaf": 2}, dims=1, grid=5, unit="1/4", n_jobs=3, backend="threading")],
 }
 
 
-def nb_variants(tier, seed, nps):
+def nb_variants(tier, seed, nps, want=2, always=()):
     out = {}
     for np_ in nps:
         pool = NB_VARIANTS[np_]
-        out[np_] = pool if tier == "thorough" else [pool[(seed + i) % len(pool)] for i in range(min(2, len(pool)))]
+        if tier == "thorough":
+            out[np_] = pool
+        else:
+            pick = [pool[(seed + i) % len(pool)] for i in range(min(want, len(pool)))]
+            out[np_] = pick + [pool[i] for i in always if i < len(pool) and pool[i] not in pick]
     return out
 
 
@@ -264,8 +270,9 @@ def c11(report):
     if report.tier == "thorough" or not report.seed % 2:
         enb.negative(report, "lsh", "LshKeepTables", "Prop_C07_FitIsFresh|Inv_C11_Tables")
     lps = ["eg", "ucb1", "ts"] if report.tier == "thorough" else ["eg", ["ucb1", "ts"][report.seed % 2]]
-    jobs = enb.jobs_for(["lsh"], lps, report.tier, report.seed, nb_variants(report.tier, report.seed, ["lsh"]),
-                        n=60 if report.tier == "thorough" else 16)
+    jobs = enb.jobs_for(["lsh"], lps, report.tier, report.seed,
+                        nb_variants(report.tier, report.seed, ["lsh"], want=3, always=(4,)),
+                        n=60 if report.tier == "thorough" else 14)
     enb.run_jobs(report, jobs, nb_filter(["lsh"], *NB_TRACE))
     _nb_counts(report)
     report.assumptions += ["signatures are recomputed by the harness from mab._imp.table_to_plane with the documented formula "
@@ -279,7 +286,9 @@ def c12(report):
     for np_ in nps:
         enb.exhaustive(report, np_, report.tier)
     lps = ["eg", "ucb1", "ts"] if report.tier == "thorough" else ["eg", "ucb1"]
-    jobs = enb.jobs_for(nps, lps, report.tier, report.seed, nb_variants(report.tier, report.seed, nps))
+    jobs = enb.jobs_for(nps, lps, report.tier, report.seed, nb_variants(report.tier, report.seed, nps, want=2, always=(3,)
+                                                                       if True else ()))
+    jobs = [j for j in jobs if not (j["cfg"]["np_"] == "tree" and j["cfg"].get("minibatch"))]
     enb.run_jobs(report, jobs, nb_filter(nps, *NB_TRACE))
     _nb_counts(report)
     report.assumptions += ["k-means and CART fitting are scikit-learn's; the specification takes the cell / leaf of every row "
